@@ -85,6 +85,37 @@ class AddActivationTensor(Spec):
                 ('new-tensor-fresh', Not(self.h0.alloc[new])),
                 ('tensor-list-object-kept', h.load(self.sg, 'tensors') == self.tl)]
 
+class UniqueName(Spec):
+    """get_unique_tensor_name(tensor_name, subgraph): the result is carried by no tensor of the subgraph; it is tensor_name itself when free.
+    (Partial correctness: the suffix loop terminates because only finitely many names are taken; not verified.)"""
+    fields = FIELDS; consts = CONSTS
+    def __init__(self): self.invariants = {0: self.inv0}; self.while_invariants = {0: self.w0}
+    def bind(self, E, p):
+        h = p.heap
+        for nme in ('tensors', 'name', '$len', '$items:ref', '$dhas:str'): h.arr(nme)
+        h0 = h.copy(); self.h0 = h0
+        self.base = z3.Const('tensor_name', Str); self.sg = z3.Const('subgraph', Ref); self.tl = h0.load(self.sg, 'tensors'); self.n = ln(h0, self.tl)
+        self.nameof = lambda t: h0.load(items_r(h0, self.tl)[t], 'name')
+        p.env.update(tensor_name=V('str', self.base), subgraph=V('ref', self.sg)); p.pc += [self.sg != NULL, self.tl != NULL, self.n >= 0, h0.alloc[self.tl]]
+        # ghost: position of a tensor that carries the preferred name among the first i tensors (recursive definition)
+        self.wb = z3.Function('carrier_of_preferred_name', I, I)
+        p.facts.append(Schematic(1, lambda i: Implies(And(0 <= i, i < self.n), self.wb(i + 1) == If(self.nameof(i) == self.base, i, self.wb(i))), 'ghost:carrier-step'))
+    def bounds(self, E): return [self.n]
+    def may_write(self, E, p, ref, field): return z3.BoolVal(False)
+    def seen(self, ctx, p, upto):
+        has = p.heap.load(p.env['existing_names'].term, '$dhas:str')
+        return ('every-visited-name-is-in-the-set', ctx.forall(1, lambda t: Implies(And(0 <= t, t < upto), has[self.nameof(t)])))
+    def taken(self, p, upto):
+        has = p.heap.load(p.env['existing_names'].term, '$dhas:str')
+        return ('preferred-name-in-the-set-only-if-a-tensor-carries-it', Implies(has[self.base], And(0 <= self.wb(upto), self.wb(upto) < upto, self.nameof(self.wb(upto)) == self.base)))
+    def inv0(self, E, ctx, p, pre, i): return [('i-range', And(0 <= i, i <= self.n)), self.seen(ctx, p, i), self.taken(p, i), ('model-untouched', And(ln(p.heap, self.tl) == self.n, items_r(p.heap, self.tl) == items_r(self.h0, self.tl), p.heap.arr('name') == self.h0.arr('name')))]
+    def w0(self, E, ctx, p, pre): return [self.seen(ctx, p, self.n), self.taken(p, self.n), ('set-and-model-untouched', And(p.heap.load(p.env['existing_names'].term, '$dhas:str') == pre.heap.load(pre.env['existing_names'].term, '$dhas:str'), ln(p.heap, self.tl) == self.n)),
+                                          ('still-the-preferred-name-or-a-later-candidate', Or(p.env['unique_name'].term == self.base, pre.heap.load(pre.env['existing_names'].term, '$dhas:str')[self.base]))]
+    def ensures(self, E, ctx, p, ret):
+        sk = fresh('sk', I)
+        return [('result-is-carried-by-no-tensor-of-the-subgraph', ctx.forall(1, lambda t: Implies(And(0 <= t, t < self.n), ret.term != self.nameof(t)))),
+                ('result-is-the-preferred-name-when-it-is-free', Or(ret.term == self.base, And(0 <= self.wb(self.n), self.wb(self.n) < self.n, self.nameof(self.wb(self.n)) == self.base)))]
+
 class TfliteType(Spec):
     """quant_params_to_tflite_type: finite table (C03 v)"""
     fields = FIELDS; consts = CONSTS
@@ -117,6 +148,7 @@ class Insert(Spec):
         self.kind = kind; self.suffix = '_dequant' if kind == 'dequant' else '_quantized'
         self.opcode = BUILTIN['DEQUANTIZE' if kind == 'dequant' else 'QUANTIZE']
         self.callees = {'transformation_utils.add_op_code': self.k_add_op_code, 'transformation_utils.add_new_activation_tensor': self.k_add_tensor,
+                        'transformation_utils.get_unique_tensor_name': self.k_unique_name,
                         'quantize_tensor.quantize_tensor': self.k_quantize_tensor, 'qtyping.TransformationInfo': self.k_info}
         self.invariants = {0: self.inv0, 1: self.inv1, 2: self.inv2}
     # ---- entry state
@@ -235,6 +267,15 @@ class Insert(Spec):
         for f, v in (('name', name.term), ('shape', shape.term), ('type', ttype.term), ('buffer', z3.IntVal(0))): h.store(new, f, v)
         h.store(tl, '$items:ref', z3.Store(items_r(h, tl), n0, new)); h.store(tl, '$len', n0 + 1)
         return vint(n0)
+    def k_unique_name(self, E, p, args, kw, node):
+        """get_unique_tensor_name(name, subgraph): its own verified contract (UniqueName below): a name no tensor of the subgraph carries,
+        equal to the preferred name when that one is free"""
+        S = self; base, sg = args[0].term, args[1].term; h = p.heap; tl = h.load(sg, 'tensors'); n0 = ln(h, tl); its = items_r(h, tl); nm_arr = h.arr('name')
+        nm = fresh('unique_name', Str); free = fresh('preferred_free', Bo); fw = fresh('taken_w', I)
+        p.facts.append(Schematic(1, lambda t, its=its, nm_arr=nm_arr: Implies(And(0 <= t, t < n0), And(nm != nm_arr[its[t]], Implies(free, base != nm_arr[its[t]]))), 'post:unique-name'))
+        p.pc += [Implies(free, nm == base), Implies(Not(free), And(0 <= fw, fw < n0, nm_arr[its[fw]] == base))]
+        S.unique_name, S.preferred_name, S.preferred_free = nm, base, free
+        return V('str', nm)
     def k_quantize_tensor(self, E, p, args, kw, node):
         ti = args[0].term; h = p.heap
         T = h.load(ti, 'tensor_id'); tl = h.load(h.load(ti, 'subgraph'), 'tensors')
@@ -318,7 +359,10 @@ class Insert(Spec):
           # tensors: originals keep object, name, shape, buffer; new tensor named <name><suffix>, same shape, no buffer
           ('tensors-prefix-kept', ctx.forall(1, lambda t: Implies(And(0 <= t, t < S.NT), And(tens1[t] == tens0[t], h.load(tens0[t], 'name') == h0.load(tens0[t], 'name'),
                         h.load(tens0[t], 'shape') == h0.load(tens0[t], 'shape'), h.load(tens0[t], 'buffer') == h0.load(tens0[t], 'buffer'))))),
-          ('new-tensor', And(Not(h0.alloc[NEWobj]), h.load(NEWobj, 'name') == sconcat(h0.load(Tobj, 'name'), strlit(S.suffix)), h.load(NEWobj, 'shape') == h0.load(Tobj, 'shape'), h.load(NEWobj, 'buffer') == 0)),
+          ('new-tensor', And(Not(h0.alloc[NEWobj]), h.load(NEWobj, 'shape') == h0.load(Tobj, 'shape'), h.load(NEWobj, 'buffer') == 0)),
+          # C01 'tensor names are unique': the new name differs from every existing name of the subgraph; it is <name><suffix> whenever that is free
+          ('new-tensor-name-is-unique-in-the-subgraph', ctx.forall(1, lambda t: Implies(And(0 <= t, t < S.NT), h.load(NEWobj, 'name') != h0.load(tens0[t], 'name')))),
+          ('new-tensor-name-is-name+suffix-when-free', And(S.preferred_name == sconcat(h0.load(Tobj, 'name'), strlit(S.suffix)), Implies(S.preferred_free, h.load(NEWobj, 'name') == S.preferred_name))),
           # C03: dtypes the two neighbours require
           ('dtypes', And(h.load(NEWobj, 'type') == TTYPE['FLOAT32'], h.load(Tobj, 'type') == qtype_of(S.qp)) if S.kind == 'dequant' else
                      And(h.load(NEWobj, 'type') == qtype_of(S.qp), h.load(Tobj, 'type') == h0.load(Tobj, 'type'), h.load(Tobj, 'quantization') == h0.load(Tobj, 'quantization'))),
